@@ -57,6 +57,26 @@ def r02_3(ctx, wake_fn):
     wcalls = b.calls(r"^std::task::Waker::wake$")
     ctx.call_sites += len(nexts) + len(wcalls)
     if len(nexts) != 1:
+        # `iter.for_each(|w| w.wake())` idiom
+        fes = b.calls(r"Iterator>?::for_each$")
+        if len(fes) == 1 and not wcalls:
+            blk, t = fes[0]
+            it = b.expr_of_op(t["args"][0])
+            shrink = find_all(it, lambda x: x[0] == "call" and isinstance(x[1], str) and re.search(r"Iterator(>)?::(skip|take|step_by|filter|skip_while|take_while|filter_map|nth)$", x[1]))
+            cl = [ctx.facts.fns.get(wake_fn.crate + "::" + g) for g in (t.get("garg_defs") or []) if g]
+            cl = [c for c in cl if c is not None and c.built]
+            where = b.line_at((blk, 10 ** 6))
+            if shrink:
+                ctx.violated("R02.3", wake_fn, "wake-all", where, "the wake helper iterates `%s`: some parked wakers are never woken" % fmt(shrink[0], 4))
+            elif cl and contains(it, lambda x: x[0] == "param" and x[1] == 1):
+                cb = cl[0].built
+                wk = cb.calls(r"^std::task::Waker::wake$")
+                ok = bool(wk) and cb.post_dominated_by(0, [x for x, _ in wk]) and all(contains(cb.expr_of_op(tt["args"][0]), lambda x: x[0] == "param" and x[1] == 2) for _, tt in wk)
+                ctx.verdict(ok, "R02.3", wake_fn, "wake-all", where, "into_iter(param).for_each(|w| w.wake()): every item is woken",
+                            "the for_each closure of the wake helper does not wake its item on every path")
+            else:
+                ctx.undecided("R02.3", wake_fn, "wake-all", where, "for_each idiom not recognised")
+            return
         ctx.undecided("R02.3", wake_fn, "wake-all", wake_fn.loc(), "iteration idiom not recognised (%d calls of Iterator::next)" % len(nexts))
         return
     nblk, nt = nexts[0]
